@@ -229,8 +229,11 @@ theorem non_terminating_returns (g : Globals) (sev : Int) (h0 : sev ≠ Lv.panic
   C12.others_never_terminate g sev h0 h1
 
 /-- (14) One Write per destination per record: the structure of printOut and LWs.Write the
-    delivery model rests on (regenerated). -/
-theorem one_write_per_record : Gen.writesPerPrintOut = 1 ∧ Gen.lwsWriteLoops = 1 ∧ Gen.lwsWriteEarlyExit = false := by decide
+    delivery model rests on (regenerated). printOut has no way out (return, panic, exit) before the
+    Write call: whether a record that reached it is handed over does not depend on any other record
+    being in flight. -/
+theorem one_write_per_record : Gen.writesPerPrintOut = 1 ∧ Gen.lwsWriteLoops = 1 ∧ Gen.lwsWriteEarlyExit = false ∧
+    Gen.printOutExitsBeforeWrite = 0 := by decide
 
 /-! ### Println -/
 
